@@ -74,5 +74,11 @@ class Context(object):
             n = min(len(fill), len(data_in), task.xferlen)
             data_in[0:n] = fill[0:n]
         task.status = status
-        if sense is not None:
+        if isinstance(sense, str) and sense == "absent":
+            # a binding whose task object carries no sense attribute at all (ISCSIDevice.execute caters for it: `except AttributeError`)
+            try:
+                del task.raw_sense
+            except AttributeError:
+                pass
+        elif sense is not None:
             task.raw_sense = bytes(sense)
